@@ -11,8 +11,8 @@ from .. import kernel
 PROPERTY = 'C15'
 LEVEL = 'model_checking'
 STATES_FROM_COUNTERS = ('schedules', 'scheduling_points')     # complete schedules explored / scheduling decisions taken
-RULE = ('(a) every sequence of <= 3 (quick) / 4 (thorough) runs on one thread over 9 kinds {ok, root raises, root returns a truthy / '
-        'falsy value, activities blocked for ever, till, nested run that succeeds / fails / leaks}, each with its own start time; '
+RULE = ('(a) every sequence of <= 3 (quick) / 4 (thorough) runs on one thread over 16 kinds {ok, root raises (4 exception types), root returns a truthy / '
+        'falsy value, activities blocked for ever, till (one / several survivors, till 0, till = start), nested run that succeeds / fails / leaks}, each with its own start time; '
         '(b) every interleaving of 2 (preemption bound 3 quick / 5 thorough) and 3 (preemption bound 1 quick / 2 thorough) OS threads '
         'that each run a small simulation (thorough: 2 threads with <= 5 preemptions), under a controlled scheduler with scheduling points after every activation and around the '
         'assignment of the thread\'s current loop. Oracle: time.now raises outside of run() in every thread; roots start at `start` '
@@ -41,7 +41,7 @@ class Boom(Exception):
 
 # ---- (a) run histories --------------------------------------------------------------------------------
 KINDS = ('ok', 'raise', 'raise-IndexError', 'raise-KeyError', 'raise-StopIteration', 'return7', 'return0', 'returnFalse', 'blocked',
-         'till', 'till0', 'nested-ok', 'nested-raise', 'nested-leak')
+         'till', 'till0', 'till3', 'tillnow', 'nested-ok', 'nested-raise', 'nested-leak')
 
 
 def do_run(kind, start, log):
@@ -113,6 +113,16 @@ def do_run(kind, start, log):
         usim.run(a('a', 3), a('b', 1), start=-2, till=0)
         if ('b', 'end', -1) not in marks or any(m[0] == 'a' and m[1] == 'end' for m in marks):
             msgs.append('till0: %r' % (marks,))
+    elif kind == 'till3':
+        # several root activities are still alive when the deadline arrives: all of them end there
+        usim.run(a('a', 3), a('b', 4), a('c', 1), a('d', 5), a('e', 3), start=start, till=start + 2)
+        if ('c', 'end', start + 1) not in marks or any(m[0] != 'c' and m[1] == 'end' for m in marks):
+            msgs.append('till3: %r' % (marks,))
+    elif kind == 'tillnow':
+        # a deadline equal to the start time is reached at once: nothing happens at a later time
+        usim.run(a('a', 2), a('b', 0), a('c', 1), start=start, till=start)
+        if any(m[2] != start for m in marks):
+            msgs.append('tillnow: %r' % (marks,))
     elif kind.startswith('nested'):
         inner_kind = {'nested-ok': 'ok', 'nested-raise': 'raise', 'nested-leak': 'return0'}[kind]
         inner_msgs = []
